@@ -318,7 +318,15 @@ func (k *worker) upRun(run int, sc map[string]any, big int, corrupt string) ([]m
 				}
 			}
 			conn := sim.NewScriptConn(pend, segs)
-			conn.Cut = op == "cut"
+			// a dying peer shows up either as a connection error (RST) or as a clean end of stream (FIN): both flavours
+			flavour := "end"
+			if op == "cut" {
+				flavour = "eof"
+				if r.Intn(2) == 0 {
+					flavour = "error"
+				}
+			}
+			conn.Cut = flavour == "error"
 			res := k.serve(conn, ref, 120*time.Second)
 			if res.Hung {
 				return nil, fmt.Errorf("run %d: upload connection did not finish in 120 s", run)
@@ -331,7 +339,7 @@ func (k *worker) upRun(run int, sc map[string]any, big int, corrupt string) ([]m
 			if res.Returned {
 				via = "return"
 			}
-			emit(map[string]any{"op": op, "o": o, "ended": via, "handlerErr": res.Err, "p": len(pend)})
+			emit(map[string]any{"op": op, "o": o, "ended": via, "flavour": flavour, "handlerErr": res.Err, "p": len(pend)})
 			ref, pend, pendSet = nil, nil, false
 		case "download":
 			var rs []byte
